@@ -3,6 +3,8 @@ package h
 import (
 	"encoding/json"
 	"fmt"
+	"os"
+	"path/filepath"
 	"strconv"
 	"strings"
 	"time"
@@ -13,7 +15,7 @@ var kvProps = map[string]bool{"ALL": true, "C01": true, "C05": true, "C06": true
 // schedPlans: scenario-name prefixes per property.
 var schedPlans = map[string][]string{
 	"C02": {"R-", "L-"},
-	"C03": {"S1-", "S2-", "S3-", "S4-", "S5-", "S6-", "S7-", "S8-", "L-wux", "L-update"},
+	"C03": {"S1-", "S2-", "S3-", "S4-", "S5-", "S6-", "S7-", "S8-", "S9-", "S10-", "L-wux", "L-update"},
 	"C08": {"F-"},
 	"C09": {"B-"},
 	"C15": {"K-"},
@@ -34,8 +36,9 @@ type genPlan struct {
 
 var genPlans = map[string][]genPlan{
 	"C04": {{kind: "clock", quickDepth: 3, thoroughDepth: 4}, {kind: "clock", cfg: Config{Disk: true}, quickDepth: 3, thoroughDepth: 4}},
-	"C11": {{kind: "isolation", quickDepth: 3, thoroughDepth: 4}, {kind: "isolation", cfg: Config{Disk: true}, quickDepth: 2, thoroughDepth: 3}},
-	"C12": {{kind: "views", quickDepth: 3, thoroughDepth: 4}, {kind: "views", cfg: Config{Disk: true}, quickDepth: 2, thoroughDepth: 3}},
+	"C11": {{kind: "isolation", quickDepth: 3, thoroughDepth: 4}, {kind: "isolation", cfg: Config{Disk: true}, quickDepth: 2, thoroughDepth: 3},
+		{kind: "views", quickDepth: 4, thoroughDepth: 4}},
+	"C12": {{kind: "views", quickDepth: 4, thoroughDepth: 4}, {kind: "views", cfg: Config{Disk: true}, quickDepth: 2, thoroughDepth: 3}},
 	"C13": {{kind: "registry", quickDepth: 4, thoroughDepth: 6}},
 	"C19": {{kind: "queries", quickDepth: 3, thoroughDepth: 4}, {kind: "queries", cfg: Config{Disk: true}, quickDepth: 3, thoroughDepth: 4}},
 	"C14": {{kind: "expiry", quickDepth: 4, thoroughDepth: 5}, {kind: "expiry", cfg: Config{Disk: true}, quickDepth: 3, thoroughDepth: 4}},
@@ -98,7 +101,7 @@ func RunCheck(prop, tier string, procs int, budget time.Duration) int {
 		if !quick {
 			bound = 3
 		}
-		RunSchedMany(rep, pool, ScenarioNames(prefixes...), bound, deadline)
+		RunSchedMany(rep, pool, ScenarioNamesTier(quick, prefixes...), bound, deadline)
 	}
 	if prop == "C04" {
 		known = true
@@ -125,12 +128,34 @@ func RunCheck(prop, tier string, procs int, budget time.Duration) int {
 		known = true
 		rep.Rule = "exhaustive crash-point enumeration on the real implementation: a child process runs a write history on an on-disk bucket and is killed (SIGKILL) on entry to the N-th write-class system call (pwrite/write/ftruncate/fsync/fdatasync/unlink/rename under the bucket directory), for every N; a fresh process reopens the directory and its complete contents are compared with the states recorded after each acknowledged call; a case is one crash point"
 		rep.Assumptions = append(rep.Assumptions, "process-kill model (no power loss: data written before the kill reaches the file system)", "single-threaded histories so that system call N is the same operation in every run (checked: a divergent acknowledgement count is reported)")
-		hs := []string{"H1-kv", "H3-multistep"}
-		if !quick {
-			hs = []string{"H1-kv", "H2-xattrs", "H3-multistep", "H4-collections-views"}
-		}
+		hs := []string{"H1-kv", "H2-xattrs", "H3-multistep", "H4-collections-views"}
 		for _, hname := range hs {
 			RunCrash(rep, hname, procs, deadline)
+		}
+	}
+	if out := os.Getenv("VERIF_RACEPASS_OUT"); out != "" {
+		// auxiliary, non-deciding: what the free-running -race pass of the scenario bodies printed
+		summary, _ := os.ReadFile(out)
+		logs, _ := filepath.Glob(os.Getenv("VERIF_RACEPASS_LOGS") + "*")
+		races := 0
+		frames := map[string]int{}
+		for _, l := range logs {
+			b, _ := os.ReadFile(l)
+			races += strings.Count(string(b), "WARNING: DATA RACE")
+			for _, line := range strings.Split(string(b), "\n") {
+				line = strings.TrimSpace(line)
+				if strings.HasPrefix(line, "github.com/couchbaselabs/rosmar.") {
+					frames[strings.SplitN(line, "(", 2)[0]]++
+				}
+			}
+		}
+		last := strings.TrimSpace(string(summary))
+		if i := strings.LastIndex(last, "\n"); i >= 0 {
+			last = last[i+1:]
+		}
+		rep.Extra["race_pass_diagnostic"] = map[string]any{"what": "free-running -race executions of the scenario bodies (sampling; never a verdict)", "summary": last, "data_races_reported": races, "rosmar_frames": frames}
+		if races > 0 {
+			fmt.Printf("DIAGNOSTIC: the auxiliary -race pass reported %d data races (frames: %v); scheduling points at synchronisation operations may not be sufficient there\n", races, frames)
 		}
 	}
 	if !known {
